@@ -87,7 +87,7 @@ def _ev(t, env=None):
         a, ea = ev(t[1], env)
         b, eb = ev(t[2], env)
         v = a * b
-        return v, abs(a) * eb + abs(b) * ea + 2 * abs(v) * EPS
+        return v, abs(a) * eb + abs(b) * ea + ea * eb + 2 * abs(v) * EPS
     if k == "inv":
         a, ea = ev(t[1], env)
         if a == 0:
